@@ -9,7 +9,7 @@ func init() {
 	vRegister("HConf_Prefixes", HConf_Prefixes)
 }
 
-const hNPrefix = 10
+const hNPrefix = 10 // prefixes 0..9 are used by the generic harnesses; 10.. are special
 
 // prefix drives the world into a distinctive shape through real operations.
 func (x *hW) prefix(k int) {
@@ -67,6 +67,23 @@ func (x *hW) prefix(k int) {
 		x.opNewEntityWith(1 << uC)
 		x.opNewEntityWith(A)
 		x.opExchange(3, B|1<<uC, 0, 1)
+	case 10: // an entity that targets itself, plus a sibling
+		x.opNewEntity(R1)
+		x.opSetRelation(0, uR1, x.h[0])
+		x.opNewEntityWith(A | R1)
+	case 11: // alive parent whose child table is active but empty
+		x.opNewEntity(0)
+		x.opBuilderNew(A|R1, uR1, true, x.h[0], true)
+		x.opNewEntityWith(A)
+		x.opRemoveEntity(1)
+	case 12: // reset while relation tables are populated, then a new parent
+		x.opNewEntity(0)
+		x.opBuilderNew(A|R1, uR1, true, x.h[0], true)
+		x.opBuilderNew(A|R1, uR1, true, x.h[0], true)
+		x.opBuilderNew(R1, uR1, true, x.h[0], true)
+		x.opReset()
+		x.opNewEntity(0)
+		x.opNewEntity(0)
 	case 7: // second relation type and relation swap material
 		x.opNewEntity(0)
 		x.opBuilderNew(R2, uR2, true, x.h[0], false)
